@@ -529,6 +529,22 @@ def run(ctx):
     mw = MultiWcsStage(ctx, 3)
     for st in (mt, mw):
         explore(ctx, st, 2, ["random", "flag-race", "starve-feeder", "eager-timeout"], 2 if q else 15)
+    # (3b) a worker killed while it holds an item (negative exit status, e.g. the OOM killer): whatever else happens, the
+    # stage must not RETURN NORMALLY with that item unprocessed (how the failure is reported is C19's subject)
+    for st in [LeafStage("toast depth 2", 2), TransformStage(1), mt]:
+        items = st.items()
+        for k in range(2 if q else 8):
+            victim = items[ctx.rng.randrange(len(items))]
+            st.flavour = "signal"
+            log = []
+            out = simrun.run(st.main(2, log, faults={victim}), simrun.POLICIES[ctx.rng.choice(["random", "starve-feeder", "workers-last"])](ctx.rng))
+            st.flavour = "plain"
+            ctx.count()
+            done = [p[0] for tag, p, who in log if tag == "cb_end"]
+            if out.status == "returned" and victim not in done:
+                ctx.violation("C03:%s:returned-after-worker-killed" % st.key,
+                              "%s returned normally although the worker holding item %s was killed and the item was never processed" % (st.name, victim),
+                              {"stage": st.name, "victim": victim, "trace_tail": [list(map(str, t)) for t in out.trace[-30:]]})
     # (4) real processes
     real_leaf_run(ctx, 1, 2)
     if not q:
